@@ -147,11 +147,11 @@ func ruleHandleReply(w *core.World, r *core.Report) {
 				return
 			}
 			if code == "KrespMove" || code == "KrespAsk" {
-				if core.Unwrap(p.Resolve(ret.Results[0])) == reply && core.IsNilConst(p.Resolve(ret.Results[1])) {
+				if core.Unwrap(p.Resolve(ret.Results[0])) == reply && pathNil(p, ret.Results[1]) {
 					bad, badPos = code+" is answered with the raw reply and a nil error: the redirected command is silently lost", ret.Pos()
 				}
 				// a nil error only with the retry's own result
-				if core.IsNilConst(p.Resolve(ret.Results[1])) {
+				if pathNil(p, ret.Results[1]) {
 					okRetry := false
 					for _, s := range pathSites(p) {
 						if (s.Method == "handleMove" || s.Method == "handleAsk") && !failedOn(p, s.Value()) && core.Unwrap(p.Resolve(ret.Results[0])) == extractOf(s.Value(), 0) {
